@@ -879,7 +879,7 @@ var cfgThorough = config{"/28 0dns lease1d", "10.1.1.0/28", "10.1.1.1", "", []st
 
 func TestCheck(t *testing.T) {
 	run := report.New("C03", "exploration")
-	run.Rule = "cache states = every userspace message history over {DISCOVER,REQUEST,RELEASE,DECLINE} x {direct client m1, relayed client m2 with option 82} + lease expiry with cleanup, to the stated depth, on the real dhcp.Server writing real kernel maps; per state and client a family of request frames {DISCOVER, REQUEST selecting/renew/other-address/other-server, RELEASE, INFORM} x {msg type first, library option order} x broadcast flag x short/long options x IHL {5,6(,15)}; executed in-kernel; non-trivial = frames the fast path answered (XDP_TX)"
+	run.Rule = "cache states = every userspace message history over {DISCOVER,REQUEST,RELEASE,DECLINE} x {direct client m1, relayed client m2 with option 82} + lease expiry with cleanup, to the stated depth, on the real dhcp.Server writing real kernel maps; per state and client a family of request frames {DISCOVER, REQUEST selecting/renew/other-address/other-server, RELEASE, INFORM} x {msg type first, library option order} x broadcast flag x short/long options x IHL {5,6(,15)}; executed in-kernel; non-trivial = frames the fast path answered (XDP_TX); parts ctl[...]: the same with PoolManager calls in the history alphabet (AddPool of an id in use with other parameters, AddPool/SetDefaultPool/RemovePool of a second pool, RemovePool of the serving pool; accepted or rejected as the history dictates); parts cid[...]: four relayed clients whose circuit-ids are 31/32/33/40 bytes long with a shared 31-byte (33/40: 32-byte) prefix"
 	run.Assumptions = []string{"fast path executed as real BPF bytecode via BPF_PROG_TEST_RUN (kernel clock = uptime)", "userspace reference = a fresh server on which the same history is replayed (virtual time via testing/synctest)", "VLAN-keyed cache entries are not produced by the userspace server in these histories"}
 	dir, err := os.MkdirTemp(filepath.Join(nativebpf.Root(), ".work"), "c03-")
 	if err != nil {
